@@ -351,11 +351,13 @@ func runCrashSim(r *Run, prop string, cfg PipeCfg, st *Stream, maxCrashes int, c
 		ph := in.getPhase()
 		if ph == 2 {
 			// Send ended by itself in a healthy run: the tool would restart the syncer; do the same (bounded).
-			if (in.spErr != nil && !in.wasReset) || crashes > maxCrashes+3 {
+			if (in.spErr != nil && !in.wasReset && !in.refused) || crashes > maxCrashes+3 {
 				ps.setViolation(prop+".ended", "replay ended although nothing failed", "incarnation %d ended: spErr=%v sendErr=%v", in.id, in.spErr, in.sendErr)
 				break
 			}
-			crashes++
+			if !in.refused { // (a start that met the loading target is tried again; the refusals are counted out by themselves)
+				crashes++
+			}
 			ps.killAll(in.id)
 			ps.startIncarnation()
 			continue
@@ -367,6 +369,9 @@ func runCrashSim(r *Run, prop string, cfg PipeCfg, st *Stream, maxCrashes int, c
 			o.observe()
 			ps.startIncarnation()
 			continue
+		}
+		if ph == 1 && ps.loadingLeft > 0 {
+			ps.loadingLeft, ps.loadingSkip = 0, 0 // the start is over: the target has finished loading before the replay begins
 		}
 		ready := ps.srv.Ready()
 		if ph == 1 && ps.remaining() == 0 && len(ready) == 0 && (!in.wasReset || o.maxP >= len(o.expected)) {
@@ -401,6 +406,21 @@ func runCrashSim(r *Run, prop string, cfg PipeCfg, st *Stream, maxCrashes int, c
 					ps.targetReset(r.Sched())
 					o.observe()
 				}})
+				if ph == 1 {
+					acts = append(acts, pipeAction{"target-restart", w, func() {
+						// the target is restarted: it drops the tool's connections, is reachable again at once and, for a while,
+						// still loads its dataset - it serves INFO and SELECT and answers -LOADING to everything that touches the
+						// keyspace. The tool's next start (same process, same output object) meets that while it looks for its
+						// resume position: a refused scan is an error and the start is tried again, never "nothing stored there"
+						crashes++
+						ps.targetReset(r.Sched())
+						ps.loadingSkip = r.Sched().Choose("loading_after", 10)
+						ps.loadingLeft = 1 + r.Sched().Choose("loading_requests", 3)
+						r.W.Fault("target_loading")
+						r.Logf("the target is loading: the next %d keyspace requests are refused", ps.loadingLeft)
+						o.observe()
+					}})
+				}
 				acts = append(acts, pipeAction{"conn-loss", w, func() {
 					crashes++
 					ps.connLoss(r.Sched())
